@@ -38,6 +38,8 @@ type c27Case struct {
 	Noise  int    `json:"noise"` // number of extra end-to-end headers
 	// streamed response to a slow client (c27stream.go); nil for the enumerated cases
 	Stream *c27Stream `json:"stream,omitempty"`
+	// declared Content-Length vs body source (c27len.go); nil for the other cases
+	Len *c27Len `json:"len,omitempty"`
 }
 
 func c27Body(id string, n int) []byte {
@@ -56,6 +58,9 @@ func c27Body(id string, n int) []byte {
 func (c *c27Case) bytes() []byte {
 	if c.Stream != nil {
 		return c27StreamRequest(c)
+	}
+	if c.Len != nil {
+		return c27LenRequest(c)
 	}
 	var sb strings.Builder
 	fmt.Fprintf(&sb, "%s /c27/%s HTTP/1.%d\r\nHost: c27.test\r\nX-Id: %s\r\nX-Src: %s\r\nX-Status: %d\r\nX-Blen: %d\r\nX-Frame: %s\r\nX-Bconn: %s\r\nX-Noise: %d\r\n",
@@ -135,7 +140,7 @@ func c27BackendAction(x *e2e.Exchange) e2e.Action {
 }
 
 func c27(r *vkit.Run) {
-	r.SetRule("full in-process BFE. (1) ENUMERATED (both tiers, complete): every combination of request method {GET,HEAD,POST} x HTTP/1.{0,1} x Connection {none,close,keep-alive} x response source {backend with framing cl/chunked/close-delimited/short Content-Length, module (BfeHandlerResponse filter) with/without Content-Length} x status {200,204,301,304,404,500,999; module also 100,101} x body size {0,1,511,512,513,4095,4096,65537} x backend Connection header {none,close,keep-alive}; thorough adds 0-3 noise headers variants. (2) STREAMED responses to slow clients (c27stream.go, seeded): clusters with ResFlushInterval 1/5/20 ms and/or requests with Accept: text/event-stream; a raw backend sends a chunked or close-delimited body as one block plus K pieces with pauses (a few KB .. 4 MB); the client connects with SO_RCVBUF 1024..default and TCP_MAXSEG 536..default from a fresh loopback source address and either reads nothing until the backend has finished, stalls for 50-400 ms, reads slowly in small pieces, stalls in the middle, or reads at full speed; families brim/sweep/sse-brim walk the response size in steps smaller than the last piece across the amount a stalled client lets bfe queue (about 29 KB, measured per run for the evidence), so that bfe's write of the last piece - by the tick-driven flusher (400-byte pieces) or by the copy loop (3000-byte pieces) - is still blocked when the backend body ends. Both parts: the client pipelines a probe request after the case (stream cases: only on HTTP/1.1); the client byte stream is parsed by the strict RFC 7230 reference response parser and must be exactly one response with the backend's status, X-Case header and body, followed by nothing or by the probe's reply. Non-trivial = response reached the client; distinct = the axis tuple")
+	r.SetRule("full in-process BFE. (1) ENUMERATED (both tiers, complete): every combination of request method {GET,HEAD,POST} x HTTP/1.{0,1} x Connection {none,close,keep-alive} x response source {backend with framing cl/chunked/close-delimited/short Content-Length, module (BfeHandlerResponse filter) with/without Content-Length} x status {200,204,301,304,404,500,999; module also 100,101} x body size {0,1,511,512,513,4095,4096,65537} x backend Connection header {none,close,keep-alive}; thorough adds 0-3 noise headers variants. (2) STREAMED responses to slow clients (c27stream.go, seeded): clusters with ResFlushInterval 1/5/20 ms and/or requests with Accept: text/event-stream; a raw backend sends a chunked or close-delimited body as one block plus K pieces with pauses (a few KB .. 4 MB); the client connects with SO_RCVBUF 1024..default and TCP_MAXSEG 536..default from a fresh loopback source address and either reads nothing until the backend has finished, stalls for 50-400 ms, reads slowly in small pieces, stalls in the middle, or reads at full speed; families brim/sweep/sse-brim walk the response size in steps smaller than the last piece across the amount a stalled client lets bfe queue (about 29 KB, measured per run for the evidence), so that bfe's write of the last piece - by the tick-driven flusher (400-byte pieces) or by the copy loop (3000-byte pieces) - is still blocked when the backend body ends. (3) DECLARED LENGTH vs BODY SOURCE (c27len.go): a scripted FastCGI application (cluster Protocol fcgi, ResFlushInterval 0 and 5 ms) and a harness filter returning a Response verdict at HandleAfterLocation answer with Content-Length N and a body source of L bytes; enumerated N {0,1,5,512,4096,40000} x L {0,N/2,N-1,N,N+1,N+7,N+300,N+<a complete smuggled HTTP response>} x delivery {one piece, two pieces, second piece crossing N, extra piece after N, five pieces (with pauses on the flushing cluster), CGI header block and first piece in one FastCGI record} x request {GET 1.1, GET 1.1 close, GET 1.0 keep-alive, GET 1.0, POST, 404, HEAD, 204, 304}, plus seeded (N, L, partition into 1-6 pieces incl. a boundary exactly at N, source, flush interval, request kind); oracle: the client bytes are one response with the case's status and X-Case whose body consists of the first bytes of the body source and is not longer than N; with L = N it is complete and equal; an incomplete response (connection ended inside the body) is accepted only when L != N; after a complete response nothing or exactly the probe's reply may follow - never bytes of the source beyond N. All parts: the client pipelines a probe request after the case (stream cases: only on HTTP/1.1); the client byte stream is parsed by the strict RFC 7230 reference response parser and must be exactly one response with the backend's status, X-Case header and body, followed by nothing or by the probe's reply. Non-trivial = response reached the client; distinct = the axis tuple")
 	bs := e2e.NewBackendSet()
 	defer bs.Close()
 	be := bs.New("b1", c27BackendAction)
@@ -145,10 +150,16 @@ func c27(r *vkit.Run) {
 		return
 	}
 	defer sbe.ln.Close()
+	fbe, err := newC27Fcgi()
+	if err != nil {
+		r.Inconclusive("fastcgi responder: " + err.Error())
+		return
+	}
+	defer fbe.ln.Close()
 	srv, err := e2e.Start(&e2e.Options{Clusters: append([]e2e.Cluster{{
-		Name: "c27", Hosts: []string{"c27.test"}, MaxIdleConnsPerHost: 0,
+		Name: "c27", Hosts: []string{"c27.test"}, MaxIdleConnsPerHost: 0, TimeoutConnSrv: 10000, TimeoutResponseHeader: 20000,
 		SubClusters: []e2e.SubCluster{{Name: "sub1", Weight: 100, Backends: []e2e.Backend{{Name: "b1", Addr: be.Addr, Port: be.Port, Weight: 10}}}},
-	}}, c27StreamClusters(sbe)...)})
+	}}, append(c27StreamClusters(sbe), c27LenClusters(fbe)...)...)})
 	if err != nil {
 		r.Inconclusive("server start: " + err.Error())
 		return
@@ -178,6 +189,11 @@ func c27(r *vkit.Run) {
 		req.HttpResponse = res
 		return bfe_module.BfeHandlerResponse, res
 	})
+
+	if err := c27InstallLenFilter(srv); err != nil {
+		r.Inconclusive("AddFilter: " + err.Error())
+		return
+	}
 
 	var cases []*c27Case
 	if r.Replay != "" {
@@ -231,6 +247,7 @@ func c27(r *vkit.Run) {
 			r.Inconclusive("partial run (VERIF_C27_STREAM_ONLY)")
 		}
 		r.Count("enumerated_cases", int64(len(cases)))
+		cases = append(cases, c27LenCases(r)...)
 		cases = append(cases, c27StreamCases(r)...)
 	}
 
@@ -262,12 +279,15 @@ func c27(r *vkit.Run) {
 	// streamed responses to slow clients run after the enumeration, so that the enumeration's load does not blur their timing
 	stallCapacity := c27RunStream(r, srv.HTTPAddr, sbe, cases, streamIdx, raws, eofs)
 
-	enumSamples, streamSamples := 0, 0
+	enumSamples, streamSamples, lenSamples := 0, 0, 0
 	for i, c := range cases {
 		raw := raws[i]
 		key := fmt.Sprintf("%s|1.%d|%s|%s|%d|%d|%s|%s|%d", c.Method, c.Minor, c.Conn, c.Source, c.Status, c.Blen, c.Frame, c.Bconn, c.Noise)
 		if c.Stream != nil {
 			key += "|" + c.Stream.key()
+		}
+		if c.Len != nil {
+			key += "|" + c.Len.key()
 		}
 		w := map[string]interface{}{"case": c, "request": string(c.bytes()), "client_bytes": clip(string(raw), 1500), "client_len": len(raw), "eof": eofs[i]}
 		if c.Stream != nil {
@@ -289,6 +309,14 @@ func c27(r *vkit.Run) {
 		}
 		if len(raw) == 0 {
 			r.Violation("no-response:"+sig, "connection closed without any response byte", w)
+			continue
+		}
+		if c.Len != nil {
+			c27JudgeLen(r, c, raw, w)
+			if lenSamples < 2 && r.WantSample() && c.Len.rel() == "long" && c.Len.N > 0 && c.Len.N < 600 && i%7 == 0 {
+				lenSamples++
+				r.Sample(w)
+			}
 			continue
 		}
 		resp, n, rej := http1.ParseResponse(raw, c.Method, c.Minor)
@@ -313,8 +341,11 @@ func c27(r *vkit.Run) {
 			r.Count("truncated_backend_cases", 1)
 			continue
 		}
-		if resp.Status == 500 && c.Status != 500 && len(http1.Get(resp.Fields, "X-Case")) == 0 {
-			// bfe's own error page (e.g. the backend connection failed): well-formed, but not the case's response
+		if resp.Status == 500 && len(http1.Get(resp.Fields, "X-Case")) == 0 &&
+			(c.Status != 500 || (len(resp.Body) == 0 && strings.Join(http1.Get(resp.Fields, "Server"), ",") == "bfe")) {
+			// bfe's own error page (e.g. the backend connection failed): well-formed, but not the case's response. For a
+			// case whose own status is 500 the page is told apart by "Server: bfe" (never on a forwarded response) and
+			// its empty body.
 			r.Count("bfe_error_page_instead_of_case_response", 1)
 			if c.Stream != nil {
 				r.Count("stream_bfe_error_page_instead_of_case_response", 1)
@@ -371,7 +402,7 @@ func c27(r *vkit.Run) {
 		} else {
 			r.Count("closed_after_response", 1)
 		}
-		if r.WantSample() && i%997 == 0 && c.Stream == nil && enumSamples < 5 {
+		if r.WantSample() && i%997 == 0 && c.Stream == nil && enumSamples < 3 {
 			enumSamples++
 			r.Sample(w)
 		}
@@ -386,6 +417,7 @@ func c27(r *vkit.Run) {
 			r.Violation("panic-counter:"+k, fmt.Sprintf("%s=%d", k, v), nil)
 		}
 	}
+	c27LenFinish(r, fbe)
 	if r.Replay == "" && (r.Counter("probe_answered_in_sync") == 0 || r.Counter("close_delimited_responses") == 0) {
 		r.Inconclusive("keep-alive or close-delimited path never observed")
 	}
